@@ -78,13 +78,22 @@ func (rg *refGroup) collectSymbols(refname string) (bool, []sizes.RefGroupSymbol
 // gitconfig and returns the result. It is not considered an error if
 // there are no usable config entries for the filter.
 func (rg *refGroup) augmentFromConfig(configger Configger) error {
-	config, err := configger.GetConfig(fmt.Sprintf("refgroup.%s", rg.Symbol))
+	// Read the whole section and pick the entries of this group by
+	// their exact subsection name. (Asking for the key prefix
+	// "refgroup.<symbol>" is not the same thing: for a group whose
+	// name ends in '.', it also matches the entries of the group
+	// named without that dot.)
+	config, err := configger.GetConfig("refgroup")
 	if err != nil {
 		return err
 	}
 
 	for _, entry := range config.Entries {
-		switch entry.Key {
+		symbol, key := splitKey(entry.Key)
+		if symbol != rg.Symbol {
+			continue
+		}
+		switch key {
 		case "name":
 			rg.Name = entry.Value
 		case "include":
